@@ -37,6 +37,7 @@ type PathQ struct {
 	CutLit  LitMatch                               // deleted edges: those whose (path-resolved) literal matches
 	Facts   *Facts                                 // optional path-sensitivity on repeated branch conditions
 	NoBack  bool                                   // do not follow back edges (target dominates source)
+	base    []ssa.CallInstruction                  // frames active when the query started
 }
 
 type pstate struct {
@@ -63,6 +64,7 @@ type memoNode struct {
 	val  ssa.Value
 	up   *memoNode
 	sign string
+	fr   *frameNode // the helper frame the value lives in (call results), nil for the current function
 }
 
 func (m *memoNode) lookup(k ssa.Value, idx int) (ssa.Value, bool) {
@@ -74,6 +76,15 @@ func (m *memoNode) lookup(k ssa.Value, idx int) (ssa.Value, bool) {
 	return nil, false
 }
 
+func (m *memoNode) lookupFr(k ssa.Value, idx int) (ssa.Value, *frameNode, bool) {
+	for n := m; n != nil; n = n.up {
+		if n.key == k && n.idx == idx {
+			return n.val, n.fr, true
+		}
+	}
+	return nil, nil, false
+}
+
 func (m *memoNode) sig() string {
 	if m == nil {
 		return ""
@@ -81,7 +92,7 @@ func (m *memoNode) sig() string {
 	return m.sign
 }
 
-func pushMemo(m *memoNode, k ssa.Value, idx int, v ssa.Value) *memoNode {
+func pushMemo(m *memoNode, k ssa.Value, idx int, v ssa.Value, fr *frameNode) *memoNode {
 	// replace an older decision for the same key (keeps the chain short and the signature canonical per key)
 	var keep []*memoNode
 	for n := m; n != nil; n = n.up {
@@ -92,10 +103,10 @@ func pushMemo(m *memoNode, k ssa.Value, idx int, v ssa.Value) *memoNode {
 	var out *memoNode
 	for i := len(keep) - 1; i >= 0; i-- {
 		n := keep[i]
-		out = &memoNode{key: n.key, idx: n.idx, val: n.val, up: out}
+		out = &memoNode{key: n.key, idx: n.idx, val: n.val, up: out, fr: n.fr}
 		out.sign = out.upSig() + memoEntrySig(n.key, n.idx, n.val)
 	}
-	nn := &memoNode{key: k, idx: idx, val: v, up: out}
+	nn := &memoNode{key: k, idx: idx, val: v, up: out, fr: fr}
 	nn.sign = nn.upSig() + memoEntrySig(k, idx, v)
 	return nn
 }
@@ -112,10 +123,19 @@ func memoEntrySig(k ssa.Value, idx int, v ssa.Value) string {
 }
 
 // resolveBool follows memoised phi/call decisions; returns the resolved value and accumulated negation.
-func (q *PathQ) resolveBool(v ssa.Value, memo *memoNode) (ssa.Value, bool) {
+func (q *PathQ) resolveBool(v ssa.Value, memo *memoNode) (ssa.Value, bool, *frameNode) {
 	neg := false
+	var ctx *frameNode
 	for i := 0; i < 12; i++ {
-		v = q.c.resolve(v)
+		if ctx != nil {
+			// values of a helper frame are resolved in that frame
+			saved := q.c.frames
+			q.c.frames = append(append([]ssa.CallInstruction{}, q.base...), chainOf(ctx)...)
+			v = q.c.resolve(v)
+			q.c.frames = saved
+		} else {
+			v = q.c.resolve(v)
+		}
 		switch x := v.(type) {
 		case *ssa.UnOp:
 			if x.Op.String() == "!" {
@@ -129,21 +149,29 @@ func (q *PathQ) resolveBool(v ssa.Value, memo *memoNode) (ssa.Value, bool) {
 				continue
 			}
 		case *ssa.Call:
-			if w, ok := memo.lookup(x, 0); ok {
-				v = w
+			if w, fr, ok := memo.lookupFr(x, 0); ok {
+				v, ctx = w, fr
 				continue
 			}
 		case *ssa.Extract:
 			if call, isCall := x.Tuple.(*ssa.Call); isCall {
-				if w, ok := memo.lookup(call, x.Index); ok {
-					v = w
+				if w, fr, ok := memo.lookupFr(call, x.Index); ok {
+					v, ctx = w, fr
 					continue
 				}
 			}
 		}
 		break
 	}
-	return v, neg
+	return v, neg, ctx
+}
+
+func chainOf(s *frameNode) []ssa.CallInstruction {
+	var chain []ssa.CallInstruction
+	for n := s; n != nil; n = n.up {
+		chain = append([]ssa.CallInstruction{n.call}, chain...)
+	}
+	return chain
 }
 
 // dynLit: the literal witnessed by taking successor succ of b on this path.
@@ -153,14 +181,22 @@ func (q *PathQ) dynLit(b *ssa.BasicBlock, succ int, memo *memoNode) (lit Lit, ha
 	if !ok {
 		return Lit{}, false, false, true
 	}
-	v, neg := q.resolveBool(iff.Cond, memo)
+	v, neg, ctx := q.resolveBool(iff.Cond, memo)
 	if k, isC := v.(*ssa.Const); isC && k.Value != nil {
 		if bt, ok := k.Type().Underlying().(*types.Basic); ok && bt.Info()&types.IsBoolean != 0 {
 			val := constantBool(k) != neg
 			return Lit{}, false, true, (succ == 0) == val
 		}
 	}
-	l := q.c.cond(v)
+	var l Lit
+	if ctx != nil {
+		saved := q.c.frames
+		q.c.frames = append(append([]ssa.CallInstruction{}, q.base...), chainOf(ctx)...)
+		l = q.c.cond(v)
+		q.c.frames = saved
+	} else {
+		l = q.c.cond(v)
+	}
 	if neg {
 		l = l.Neg()
 	}
@@ -198,6 +234,7 @@ func (q *PathQ) Reach(from Site, startFact uint64, target func(ssa.Instruction) 
 	var work []*item
 	work = append(work, &item{from.B, from.I, startFact, stack0, nil, nil})
 	savedFrames := c.frames
+	q.base = savedFrames
 	defer func() { c.frames = savedFrames }()
 	setFrames := func(s *frameNode) {
 		c.frames = savedFrames
@@ -239,10 +276,7 @@ func (q *PathQ) Reach(from Site, startFact uint64, target func(ssa.Instruction) 
 				stop = true
 				break
 			}
-			if q.Facts != nil {
-				fact = q.Facts.step(in, fact)
-			}
-			// descend into a new helper
+			// descend into a new helper (its instructions then act on the facts one by one)
 			if ci, ok := in.(ssa.CallInstruction); ok {
 				if _, isDefer := in.(*ssa.Defer); !isDefer {
 					cal := ci.Common().StaticCallee()
@@ -255,13 +289,16 @@ func (q *PathQ) Reach(from Site, startFact uint64, target func(ssa.Instruction) 
 					}
 				}
 			}
+			if q.Facts != nil {
+				fact = q.Facts.step(in, fact)
+			}
 			if ret, ok := in.(*ssa.Return); ok && it.stack != nil {
 				// return into the caller, remembering the returned values
 				fr := it.stack
 				nm := memo
 				if cv := fr.call.Value(); cv != nil {
 					for k, rv := range ret.Results {
-						nm = pushMemo(nm, cv, k, rv)
+						nm = pushMemo(nm, cv, k, rv, fr)
 					}
 				}
 				work = append(work, &item{fr.ret.B, fr.ret.I, fact, fr.up, nm, it})
@@ -316,7 +353,7 @@ func (q *PathQ) Reach(from Site, startFact uint64, target func(ssa.Instruction) 
 						break
 					}
 					if bt, ok := ph.Type().Underlying().(*types.Basic); ok && bt.Info()&types.IsBoolean != 0 {
-						nm = pushMemo(nm, ph, 0, ph.Edges[pi])
+						nm = pushMemo(nm, ph, 0, ph.Edges[pi], nil)
 					}
 				}
 			}
